@@ -58,6 +58,15 @@ def to_matrix(rows):
     return np.array([[np.nan if v is None else v for v in r] for r in rows], dtype=np.float64).reshape(len(rows), 20)
 
 
+def distinct(vals):
+    """requested values, each once, in request order (what a value requested twice should yield is not stated)"""
+    out = []
+    for v in vals:
+        if v not in out:
+            out.append(v)
+    return out
+
+
 def norm_row(r):
     """canonical form of a row: a missing value (NaN) and 0 are the same thing in cryoCAT - constructors,
     fill() and the EM writer all turn NaN into 0 - so an operation that fills a hole with 0 has not changed
@@ -81,7 +90,10 @@ class C08(Property):
     def config(self, rng, tier, faulty):
         cfg = {
             "max_steps": rng.pick([5, 8, 12]),
-            "max_rows": rng.pick([0, 2, 6, 20] if tier == "quick" else [0, 2, 6, 20, 60, 200]),
+            "max_rows": rng.pick([0, 2, 6, 20, 60] if tier == "quick" else [0, 2, 6, 20, 60, 200]),
+            # how many values one subset/remove call may ask for: size thresholds inside the library (a vectorised
+            # path for long value lists, chunking) must not be a blind spot of the workload
+            "max_values": rng.pick([3, 3, 8, 30, 70]),
             "ntomo": rng.pick([1, 2, 4]), "nobj": rng.pick([1, 3, 6]), "dups": rng.chance(0.5),
             "nan_rate": rng.pick([0.0, 0.0, 0.1, 0.3]),
             "env_rate": rng.pick([0.0, 0.05, 0.1]),
@@ -125,17 +137,18 @@ class C08(Property):
         if op in ("subset", "remove") and hs[h]["rows"] and rng.chance(0.3):
             # select / remove by the particle identifier itself (values taken from the list, plus one absent value)
             ids = [r[IDX["subtomo_id"]] for r in hs[h]["rows"]]
-            vals = [rng.pick(ids) for _ in range(rng.randrange(1, 4))] + ([max(ids) + 1.0] if rng.chance(0.3) else [])
+            vals = distinct([rng.pick(ids) for _ in range(rng.randrange(1, cfg.get("max_values", 3) + 1))]
+                            + ([max(ids) + 1.0] if rng.chance(0.3) else []))
             if op == "subset":
                 return {"op": op, "sess": sess, "h": h, "new": self.new_handle(world), "feature": "subtomo_id",
                         "values": vals if rng.chance(0.7) else vals[0], "reset_index": rng.chance(0.6)}
             return {"op": op, "sess": sess, "h": h, "feature": "subtomo_id", "values": vals if rng.chance(0.6) else vals[0]}
         if op == "subset":
-            vals = [float(rng.randrange(1, 5)) for _ in range(rng.randrange(1, 4))]
+            vals = distinct([float(rng.randrange(1, 5)) for _ in range(rng.randrange(1, 4))])
             return {"op": op, "sess": sess, "h": h, "new": self.new_handle(world), "feature": feat,
                     "values": vals if rng.chance(0.7) else vals[0], "reset_index": rng.chance(0.6)}
         if op == "remove":
-            vals = [float(rng.randrange(1, 5)) for _ in range(rng.randrange(1, 3))]
+            vals = distinct([float(rng.randrange(1, 5)) for _ in range(rng.randrange(1, 3))])
             return {"op": op, "sess": sess, "h": h, "feature": feat, "values": vals if rng.chance(0.6) else vals[0]}
         if op == "split":
             return {"op": op, "sess": sess, "h": h, "feature": feat, "write": rng.chance(0.4), "prefix": rng.pick(PREFIXES),
@@ -562,7 +575,13 @@ class C08(Property):
                 if r != simple:
                     yield dict(step, rows=rows[:i] + [simple] + rows[i + 1:])
         if isinstance(step.get("values"), list) and len(step["values"]) > 1:
-            yield dict(step, values=step["values"][:1])
+            v = step["values"]
+            yield dict(step, values=v[:1])
+            if len(v) > 3:
+                yield dict(step, values=v[: len(v) // 2])
+                yield dict(step, values=v[len(v) // 2:])
+            if len(v) > 2:
+                yield dict(step, values=v[:-1])
         if step.get("args") and len(step["args"]) > 1:
             for i in range(len(step["args"])):
                 yield dict(step, args=step["args"][:i] + step["args"][i + 1:])
